@@ -1,10 +1,12 @@
 #!/usr/bin/env python3
-"""Robustness / sensitivity test of the plan bridges (translator/effects.py;
-coq/theories/Bridge_effects.v for the container functions, Bridge_effects_load.v for the decoder
-glue): apply textual edits to a PRIVATE copy of the library, regenerate coq/gen with setup.sh's
-snippet, recompile the bridge file the edit concerns, restore the library.
+"""Robustness / sensitivity test of the plan bridges (translator/effects.py): coq/theories/
+Bridge_effects.v (container functions), Bridge_effects_load.v (decoder glue), Bridge_effects_ser.v
+(serializer), Bridge_effects_ref.v (cbor_decref).  Applies textual edits (or an independent agent's
+patch file) to a PRIVATE copy of the library, regenerates coq/gen with setup.sh's snippet, recompiles
+the bridge file the edit concerns, restores the library.
 
     VERIF_REPO=/path/to/private/libcbor tools/effects_mutation.py [edit-id-prefix ...]
+    (VERIF_HARMLESS=<dir containing harm1/ harm2/> for the ser-R* patch edits; default /tmp)
 
 P = behaviour-preserving rewrite: the bridge must still pass (or the function degrade to
 translator_unsupported); M = meaning-changing edit: the bridge lemma of that function must fail.
@@ -30,9 +32,18 @@ cd coq
 timeout 300 coqc -Q theories CB -Q gen CBGen gen/Gen_effects%(sfx)s.v || { echo GEN-COMPILE-FAILED; exit 2; }
 if timeout 1800 coqc -Q theories CB -Q gen CBGen theories/Bridge_effects%(sfx)s.v > %(verif)s/coq/bridge_effects.log 2>&1; then echo BRIDGE-PASS; else echo BRIDGE-FAIL; fi
 """
+SFX = {"containers": "", "load": "_load", "ser": "_ser", "ref": "_ref"}
 def regen(group):
-    return REGEN % {"verif": VERIF, "sfx": "_load" if group == "load" else ""}
+    return REGEN % {"verif": VERIF, "sfx": SFX[group]}
 GLUE = ("src/cbor/internal/builder_callbacks.c", "src/cbor.c")
+SERF = ("src/cbor/serialization.c",)
+def group_of(subs, eid=""):
+    if eid.startswith("decref-"):
+        return "ref"
+    files = [f for f, _, _, _ in subs]
+    if any(f in SERF for f in files) or any(f == "PATCH" for f in files):
+        return "ser"
+    return "load" if any(f in GLUE for f in files) else "containers"
 A, M, B, S = "src/cbor/arrays.c", "src/cbor/maps.c", "src/cbor/bytestrings.c", "src/cbor/internal/stack.c"
 CHECK = "metadata->end_ptr >= metadata->allocated"
 TERN_A = """      size_t new_allocation = metadata->allocated == 0
@@ -132,6 +143,39 @@ LOAD_IFS = """    if (decode_result.status == CBOR_DECODER_ERROR) {
       size_t consumed = decode_result.read;
       result->read += consumed;
     }
+"""
+SZ = "src/cbor/serialization.c"
+HARM = os.environ.get("VERIF_HARMLESS", "/tmp")     # where the independent agents' harmless patches live
+ARR_LOOP = """  for (size_t i = 0; i < size; i++) {
+    size_t item_written =
+        cbor_serialize(*(handle++), buffer + written, buffer_size - written);
+    if (item_written == 0) return 0;
+    written += item_written;
+  }
+
+  if (cbor_array_is_definite(item)) {
+    return written;
+  } else {
+    CBOR_ASSERT(cbor_array_is_indefinite(item));
+    size_t break_written =
+        cbor_encode_break(buffer + written, buffer_size - written);
+    if (break_written == 0) return 0;
+    return written + break_written;
+  }
+"""
+CM = "src/cbor/common.c"
+DEC_ARR = """        cbor_item_t** handle = cbor_array_handle(item);
+        size_t size = cbor_array_size(item);
+        for (size_t i = 0; i < size; i++)
+          if (handle[i] != NULL) cbor_decref(&handle[i]);
+        _cbor_free(item->data);
+        break;
+"""
+DEC_MAP = """        for (size_t i = 0; i < item->metadata.map_metadata.end_ptr;
+             i++, handle++) {
+          cbor_decref(&handle->key);
+          if (handle->value != NULL) cbor_decref(&handle->value);
+        }
 """
 # (id, kind, [(file, old, new, count)])   kind: P = behaviour preserving, M = meaning changing
 EDITS = [
@@ -279,6 +323,85 @@ EDITS = [
  ("load-M7", "M", [(CL, "          result->read += decode_result.read;\n", "", 1)]),
  ("load-M8", "M", [(CL, "    if (source_size > result->read) { /* Check for overflows */", "    if (source_size >= result->read) { /* Check for overflows */", 1)]),
  ("load-M9", "M", [(CL, "    cbor_decref(&stack.top->item);\n    _cbor_stack_pop(&stack);", "    _cbor_stack_pop(&stack);", 1)]),
+ # ---------------- serialization.c ----------------
+ ("ser-RC1", "P", [("PATCH", HARM + "/harm1/out_C/RC-1/patch.diff", "", 0)]),
+ ("ser-RC8", "P", [("PATCH", HARM + "/harm1/out_C/RC-8/patch.diff", "", 0)]),
+ ("ser-RF5", "P", [("PATCH", HARM + "/harm2/out_F/RF-5/patch.diff", "", 0)]),
+ ("ser-RF6", "P", [("PATCH", HARM + "/harm2/out_F/RF-6/patch.diff", "", 0)]),
+ ("ser-P1", "P", [(SZ, ARR_LOOP, """  size_t i = 0;
+  while (i != size) {
+    const size_t room = buffer_size - written;
+    size_t item_written = cbor_serialize(handle[i], buffer + written, room);
+    if (!item_written) return 0;
+    written = written + item_written;
+    ++i;
+  }
+
+  if (!cbor_array_is_definite(item)) {
+    size_t break_written =
+        cbor_encode_break(buffer + written, buffer_size - written);
+    if (break_written == 0) return 0;
+    return break_written + written;
+  }
+  return written;
+""", 1)]),
+ ("ser-P2", "P", [(SZ, "  if (written == 0) return 0;\n\n  size_t item_written =\n      cbor_serialize(item->metadata.tag_metadata.tagged_item, buffer + written,\n                     buffer_size - written);\n  if (item_written == 0) return 0;\n  return written + item_written;",
+                       "  if (written != 0) {\n    unsigned char* rest = buffer + written;\n    size_t item_written = cbor_serialize(item->metadata.tag_metadata.tagged_item, rest, buffer_size - written);\n    if (item_written != 0) return item_written + written;\n  }\n  return 0;", 1)]),
+ ("ser-P3", "P", [(SZ, "  *buffer = _cbor_malloc(serialized_size);\n  if (*buffer == NULL) {\n    if (buffer_size != NULL) *buffer_size = 0;\n    return 0;\n  }\n",
+                       "  unsigned char* block = _cbor_malloc(serialized_size);\n  *buffer = block;\n  if (!block) {\n    if (buffer_size) *buffer_size = 0;\n    return 0;\n  }\n", 1),
+                  (SZ, "        array_size = _cbor_safe_signaling_add(array_size,\n                                              cbor_serialized_size(items[i]));",
+                       "        const size_t one = cbor_serialized_size(items[i]);\n        array_size = _cbor_safe_signaling_add(array_size, one);", 1)]),
+ ("ser-M1", "M", [(SZ, "    written = cbor_encode_array_start(size, buffer, buffer_size);", "    written = cbor_encode_array_start(cbor_array_allocated(item), buffer, buffer_size);", 1)]),
+ ("ser-M2", "M", [(SZ, "    if (written > 0 && (buffer_size - written >= length)) {", "    if (written > 0 && (buffer_size >= length)) {", 1)]),
+ ("ser-M3", "M", [(SZ, "    if (written > 0 && (buffer_size - written >= length)) {", "    if (written > 0 && (written + length <= buffer_size)) {", 1)]),
+ ("ser-M4", "M", [(SZ, ARR_LOOP, ARR_LOOP.replace("""    size_t break_written =
+        cbor_encode_break(buffer + written, buffer_size - written);
+    if (break_written == 0) return 0;
+    return written + break_written;""", "    return written;"), 1)]),
+ ("ser-M5", "M", [(SZ, ARR_LOOP, ARR_LOOP.replace("  if (cbor_array_is_definite(item)) {\n    return written;\n  } else {", "  {"), 1)]),
+ ("ser-M6", "M", [(SZ, ARR_LOOP, ARR_LOOP.replace("    if (item_written == 0) return 0;\n", ""), 1)]),
+ ("ser-M7", "M", [(SZ, "      return cbor_encode_negint64(cbor_get_uint64(item), buffer, buffer_size);", "      return cbor_encode_negint(cbor_get_uint64(item), buffer, buffer_size);", 1)]),
+ ("ser-M8", "M", [(SZ, "        array_size = _cbor_safe_signaling_add(array_size,\n                                              cbor_serialized_size(items[i]));", "        array_size = array_size + cbor_serialized_size(items[i]);", 1)]),
+ ("ser-M9", "M", [(SZ, "  if (*buffer == NULL) {\n    if (buffer_size != NULL) *buffer_size = 0;", "  if (*buffer == NULL) {\n    if (buffer_size != NULL) *buffer_size = serialized_size;", 1)]),
+ ("ser-M10", "M", [(SZ, "  if (serialized_size == 0) {\n    if (buffer_size != NULL) *buffer_size = 0;\n    return 0;\n  }\n  *buffer = _cbor_malloc(serialized_size);\n",
+                        "  *buffer = _cbor_malloc(serialized_size);\n  if (serialized_size == 0) {\n    if (buffer_size != NULL) *buffer_size = 0;\n    return 0;\n  }\n", 1)]),
+ ("ser-M11", "M", [(SZ, "    item_written = cbor_serialize((handle++)->value, buffer + written,\n                                  buffer_size - written);", "    item_written = cbor_serialize((handle++)->value, buffer + written,\n                                  buffer_size);", 1)]),
+ ("ser-M12", "M", [(SZ, "        cbor_serialize(handle->key, buffer + written, buffer_size - written);", "        cbor_serialize(handle->value, buffer + written, buffer_size - written);", 1),
+                   (SZ, "    item_written = cbor_serialize((handle++)->value, buffer + written,", "    item_written = cbor_serialize((handle++)->key, buffer + written,", 1)]),
+ ("ser-M13", "M", [(SZ, "        if (cbor_string_length(item) == 0) return header_size;\n", "", 1)]),
+ ("ser-M14", "M", [(SZ, "      return cbor_encode_half(cbor_float_get_float2(item), buffer, buffer_size);", "      return cbor_encode_single(cbor_float_get_float2(item), buffer, buffer_size);", 1)]),
+ ("ser-M15", "M", [(SZ, "    case CBOR_TYPE_STRING:\n      return cbor_serialize_string(item, buffer, buffer_size);", "    case CBOR_TYPE_STRING:\n      return cbor_serialize_bytestring(item, buffer, buffer_size);", 1)]),
+ ("ser-M16", "M", [(SZ, "    size_t chunk_written = cbor_serialize_bytestring(\n          chunks[i], buffer + written, buffer_size - written);", "    size_t chunk_written = cbor_serialize_bytestring(\n          chunks[i], buffer, buffer_size - written);", 1)]),
+ ("ser-M17", "M", [(SZ, "  if (buffer_size != NULL) *buffer_size = serialized_size;\n  return written;", "  if (buffer_size != NULL) *buffer_size = written;\n  return serialized_size;", 1)]),
+ ("ser-M18", "M", [(SZ, "            _cbor_safe_signaling_add(cbor_serialized_size(items[i].key),\n                                     cbor_serialized_size(items[i].value)));", "            cbor_serialized_size(items[i].key) +\n                                     cbor_serialized_size(items[i].value));", 1)]),
+ ("ser-M19", "M", [(SZ, "  for (size_t i = 0; i < size; i++) {\n    size_t item_written =\n        cbor_serialize(*(handle++)", "  for (size_t i = 0; i <= size; i++) {\n    size_t item_written =\n        cbor_serialize(*(handle++)", 1)]),
+ # ---------------- cbor_decref (common.c) ----------------
+ ("decref-P1", "P", [(CM, "  if (--item->refcount == 0) {\n    switch (item->type) {", "  item->refcount -= 1;\n  if (!(item->refcount != 0)) {\n    switch (item->type) {", 1)]),
+ ("decref-P2", "P", [(CM, DEC_ARR, """        cbor_item_t** slot = cbor_array_handle(item);
+        size_t left = cbor_array_size(item);
+        while (left > 0) {
+          if (*slot != NULL) cbor_decref(slot);
+          slot++;
+          left--;
+        }
+        _cbor_free(item->data);
+        break;
+""", 1)]),
+ ("decref-P3", "P", [(CM, DEC_MAP, """        const size_t pairs = item->metadata.map_metadata.end_ptr;
+        for (size_t i = 0; i != pairs; ++i) {
+          cbor_decref(&handle[i].key);
+          if (handle[i].value) cbor_decref(&handle[i].value);
+        }
+""", 1)]),
+ ("decref-M1", "M", [(CM, "  if (--item->refcount == 0) {\n    switch (item->type) {", "  if (item->refcount-- == 0) {\n    switch (item->type) {", 1)]),
+ ("decref-M2", "M", [(CM, DEC_ARR, DEC_ARR.replace("        _cbor_free(item->data);\n", "").replace("        cbor_item_t** handle = cbor_array_handle(item);\n", "        cbor_item_t** handle = cbor_array_handle(item);\n        _cbor_free(item->data);\n"), 1)]),
+ ("decref-M3", "M", [(CM, "          _cbor_free(((struct cbor_indefinite_string_data*)item->data)->chunks);\n          _cbor_free(item->data);\n        }\n        break;\n      }\n      case CBOR_TYPE_STRING:",
+                          "          _cbor_free(item->data);\n        }\n        break;\n      }\n      case CBOR_TYPE_STRING:", 1)]),
+ ("decref-M4", "M", [(CM, "    _cbor_free(item);\n    *item_ref = NULL;", "    *item_ref = NULL;", 1)]),
+ ("decref-M5", "M", [(CM, DEC_ARR, DEC_ARR.replace("i < size", "i <= size"), 1)]),
+ ("decref-M6", "M", [(CM, DEC_MAP, DEC_MAP.replace("          cbor_decref(&handle->key);\n          if (handle->value != NULL) cbor_decref(&handle->value);", "          if (handle->value != NULL) cbor_decref(&handle->value);\n          cbor_decref(&handle->key);"), 1)]),
+ ("decref-M7", "M", [(CM, "        if (item->metadata.tag_metadata.tagged_item != NULL)\n          cbor_decref(&item->metadata.tag_metadata.tagged_item);\n        _cbor_free(item->data);", "        _cbor_free(item->data);\n        if (item->metadata.tag_metadata.tagged_item != NULL)\n          cbor_decref(&item->metadata.tag_metadata.tagged_item);", 1)]),
+ ("decref-M8", "M", [(CM, "      case CBOR_TYPE_BYTESTRING: {\n        if (cbor_bytestring_is_definite(item)) {\n          _cbor_free(item->data);", "      case CBOR_TYPE_BYTESTRING: {\n        if (cbor_bytestring_is_definite(item)) {", 1)]),
 ]
 
 def sh(cmd):
@@ -293,6 +416,11 @@ def main():
         sh("git -C %s checkout -- ." % REPO)
         okay = True
         for f, old, new, cnt in subs:
+            if f == "PATCH":             # an independent agent's patch file (git apply)
+                r = subprocess.run(["git", "-C", REPO, "apply", old], stdout=subprocess.PIPE, stderr=subprocess.STDOUT, text=True)
+                if r.returncode != 0:
+                    print("PATCH DOES NOT APPLY", eid, old, r.stdout[-300:]); okay = False; break
+                continue
             p = os.path.join(REPO, f)
             s = open(p).read()
             if s.count(old) != cnt:
@@ -300,7 +428,7 @@ def main():
             open(p, "w").write(s.replace(old, new))
         if not okay:
             results.append((eid, kind, "edit-error")); continue
-        group = "load" if any(f in GLUE for f, _, _, _ in subs) else "containers"
+        group = group_of(subs, eid)
         out = sh(regen(group))
         lines = [l for l in out.split("\n") if l.strip()]
         verdict = "PASS" if "BRIDGE-PASS" in out else ("FAIL" if "BRIDGE-FAIL" in out else "ERROR")
@@ -311,7 +439,7 @@ def main():
             m = re.search(r'line (\d+)', log)
             if m:
                 ln = int(m.group(1))
-                src = open(os.path.join(VERIF, "coq", "theories", "Bridge_effects%s.v" % ("_load" if group == "load" else ""))).read().split("\n")
+                src = open(os.path.join(VERIF, "coq", "theories", "Bridge_effects%s.v" % SFX[group])).read().split("\n")
                 for i in range(ln - 1, -1, -1):
                     if src[i].startswith("Lemma"):
                         where = src[i].split()[1]; break
@@ -321,7 +449,7 @@ def main():
         print("%-12s %s -> %-5s %-34s %s %s" % (eid, kind, verdict, where, uns[0] if uns else "", "" if expected else "<<< UNEXPECTED"), flush=True)
         results.append((eid, kind, verdict, where))
     sh("git -C %s checkout -- ." % REPO)
-    sh(regen("containers")); sh(regen("load"))   # leave coq/gen regenerated from the restored tree
+    sh(regen("containers")); sh(regen("load")); sh(regen("ser")); sh(regen("ref"))   # leave coq/gen regenerated from the restored tree
     try:
         os.remove(os.path.join(VERIF, "coq", "bridge_effects.log"))
     except OSError:
